@@ -45,10 +45,30 @@ def space(tier, seed):
                 else:
                     q['assign'] = sh['assign']
                 qs.append(q)
-    return dict(qs=qs, rowsA=rowsA, rowsB=rowsB, k=k)
+    # hostile key values: names of Object.prototype members and digits that equal a record number as text
+    hw = ['constructor', '__proto__', 'toString', '1']
+    hq = []
+    for jt in KINDS:
+        for kl in ([(F('a', 1), F('b', 1))], [(('aNR',), F('b', 1))], [(F('a', 1), F('b', 1)), (F('a', 2), F('b', 2))]):
+            for kind, sh in shapes[:2] + shapes[5:6] + shapes[8:9]:
+                q = {'kind': 'select' if kind == 'sel' else 'update', 'where': sh.get('where'), 'join': {'type': jt, 'keys': kl}}
+                if kind == 'sel':
+                    q.update({'items': sh['items'], 'order': sh.get('order'), 'group': sh.get('group'), 'distinct': None, 'top': None})
+                else:
+                    q['assign'] = sh['assign']
+                hq.append(q)
+    hrowsA = [[w, 'x'] for w in hw]
+    hrowsB = [[w, 'x'] for w in hw[:2]] + [['1', 'x'], ['valueOf', 'y']]
+    return dict(qs=qs, rowsA=rowsA, rowsB=rowsB, k=k, hq=hq, hrowsA=hrowsA, hrowsB=hrowsB)
 
 
 def diagnose(q, A, B, exp, got, why):
+    return 'join-mismatch'
+
+
+def diagnose_js(q, A, B, exp, got, why):
+    if q['kind'] == 'update' and why.startswith("caller's input array modified"):
+        return 'F4:js-update-mutates-caller-rows'
     return 'join-mismatch'
 
 
@@ -58,6 +78,7 @@ def run_shard(sh):
     maxrows = 3 if sh['tier'] == 'thorough' else 2
     tabsA = list(qcheck.tables_upto(sp_['rowsA'], maxrows))
     tabsB = list(qcheck.tables_upto(sp_['rowsB'], maxrows))
+    jscases = []
     for qi, q in enumerate(sp_['qs'][sh['lo']:sh['hi']]):
         gi = sh['lo'] + qi
         sp = refql.Spelling(eq_single=(gi % 2 == 1), swap_on=(gi % 3 == 1))
@@ -65,6 +86,7 @@ def run_shard(sh):
         for B in tabsB:
             for A in tabsA:
                 exp, got, why = qcheck.run_case(res, q, A, B, diagnose=diagnose, text=text)
+                jscases.append((q, A, B, None, None))
                 res.states += 1
                 res.transitions += (1 if A else 0) + (1 if B else 0)
                 if why is None:
@@ -90,6 +112,18 @@ def run_shard(sh):
                 res.outcome(repr((exp.records, exp.error))[:60])
         if qi % 23 == 1:
             res.sample({'query': text, 'table_pairs': len(tabsA) * len(tabsB)})
+    if sh.get('hostile'):
+        ta = list(qcheck.tables_upto(sp_['hrowsA'], 2))
+        tb = list(qcheck.tables_upto(sp_['hrowsB'], 2))
+        for q in sp_['hq'][sh['hlo']:sh['hhi']]:
+            text = refql.render(q)
+            for B in tb:
+                for A in ta:
+                    exp, got, why = qcheck.run_case(res, q, A, B, diagnose=diagnose, text=text)
+                    jscases.append((q, A, B, None, None))
+                    res.states += 1
+                    res.feat('hostile_key_cases')
+    qcheck.run_js_cases(res, jscases, diagnose_js)
     return res
 
 
@@ -97,6 +131,8 @@ def main(tier, seed):
     t0 = time.time()
     sp_ = space(tier, seed)
     shards = [{'tier': tier, 'seed': seed, 'lo': lo, 'hi': hi} for lo, hi in core.chunks(len(sp_['qs']), 128)]
+    for lo, hi in core.chunks(len(sp_['hq']), 16):
+        shards.append({'tier': tier, 'seed': seed, 'lo': 0, 'hi': 0, 'hostile': True, 'hlo': lo, 'hhi': hi})
     res = core.run_shards('vf.checks.c04', shards)
     return core.finish(PID, tier, seed, res, t0,
         rule='5 join kinds x 8 key lists x 10 downstream shapes x all (A, B) table pairs up to the row bound (5-row alphabets each: duplicate keys, unmatched keys, rows lacking a key field); '
